@@ -6,6 +6,7 @@
 import Nuts.Model.Tx
 import NutsProofs.Lemmas.Assoc
 import NutsProofs.Lemmas.MergeReopen
+import NutsProofs.Lemmas.MergeCrash
 namespace NutsProofs.C16
 open Nuts Nuts.Model Nuts.Model.DB NutsProofs
 
@@ -122,5 +123,96 @@ theorem C16_crash_between_files_of_merge (opt0 : Opts) (ops : List Op) (hok : Op
   obtain ⟨hok2, b1, b2, b3, b4⟩ := reads_after_reopen sk now hminvk hmk1 opt hmo t hle ht b
   exact ⟨hok2, fun key => by rw [b1 key, a1 key], by rw [b2, a2], fun st en => by rw [b3 st en, a3 st en],
     fun pre mt => by rw [b4 pre mt, a4 pre mt]⟩
+
+open NutsProofs.Reopen NutsProofs.KVRefine NutsProofs.Hints NutsProofs.MergeKV in
+/-- **C16 (key/value data, crash inside the handling of one file, key+value mode, every history).** Merge has
+handled the first `k` files and works on a file `f` of what is left; `recs` are the records it selects from `f`
+(`mergeSelect`), `tid` the id of its rewrite transaction. If the process dies
+ * while the rewrite transaction is being written — `j` of its records, any number short of the last, are in the
+   new file (and the id is not one already in the files), or
+ * after the rewrite transaction has committed and before `f` is removed,
+then reopening in key+value mode succeeds and the unpaged reads at every `t ≥ now` are those before Merge
+started. With `C16_crash_between_files_of_merge` this covers every record-boundary crash point of Merge on
+key/value data; torn records remain outside (finding D-TORN-CRC). -/
+theorem C16_crash_inside_file_of_merge (opt0 : Opts) (ops : List Op) (hok : OpsOk (openDB opt0 []).1 ops)
+    (hrec : OpsRecOk ops)
+    (hsz : ∀ x ∈ allRecs (ops.foldl stepOp (openDB opt0 []).1).files, ¬ x.1.size > (ops.foldl stepOp (openDB opt0 []).1).opt.seg)
+    (hm : (ops.foldl stepOp (openDB opt0 []).1).opt.mode = 0)
+    (now : Nat) (txids : List Nat) (k : Nat)
+    (hl : (merge.go now (ops.foldl stepOp (openDB opt0 []).1)
+            (((ops.foldl stepOp (openDB opt0 []).1).files.map (·.fid)).take k) txids).1.activeUnlinked = false)
+    (f : File)
+    (hf : f ∈ (merge.go now (ops.foldl stepOp (openDB opt0 []).1)
+            (((ops.foldl stepOp (openDB opt0 []).1).files.map (·.fid)).take k) txids).1.files)
+    (tid : Nat) (opt : Opts) (hmo : opt.mode = 0) (t : Nat) (hle : now ≤ t) (ht : t < 2 ^ 64) (b : Bytes) :
+    let s := ops.foldl stepOp (openDB opt0 []).1
+    let sk := (merge.go now s ((s.files.map (·.fid)).take k) txids).1
+    let recs := (f.recs.filter (isSel sk f now)).map (·.2)
+    -- while the rewrite transaction is being written
+    (∀ j, (∀ x ∈ allRecs sk.files, x.1.txid ≠ tid) →
+      let s2 := (openDB opt (crashAfter (rotate sk) (retag tid recs) j).files).1
+      (openDB opt (crashAfter (rotate sk) (retag tid recs) j).files).2 = .ok () ∧
+      (∀ key, (DB.get s2 b key t).map (Option.map (·.value)) = (DB.get s b key t).map (Option.map (·.value))) ∧
+      ((getAll s2 b t).map pairsOf = (getAll s b t).map pairsOf) ∧
+      (∀ st en, (rangeScan s2 b st en t).map pairsOf = (rangeScan s b st en t).map pairsOf) ∧
+      (∀ pre mt, (prefixScan s2 b pre 0 (-1) t mt).map pairsOf = (prefixScan s b pre 0 (-1) t mt).map pairsOf)) ∧
+    -- after it committed, before the file is removed
+    (recs ≠ [] →
+      let s2 := (openDB opt (rewrite sk recs tid).1.files).1
+      (openDB opt (rewrite sk recs tid).1.files).2 = .ok () ∧
+      (∀ key, (DB.get s2 b key t).map (Option.map (·.value)) = (DB.get s b key t).map (Option.map (·.value))) ∧
+      ((getAll s2 b t).map pairsOf = (getAll s b t).map pairsOf) ∧
+      (∀ st en, (rangeScan s2 b st en t).map pairsOf = (rangeScan s b st en t).map pairsOf) ∧
+      (∀ pre mt, (prefixScan s2 b pre 0 (-1) t mt).map pairsOf = (prefixScan s b pre 0 (-1) t mt).map pairsOf)) := by
+  intro s sk recs
+  have hinv : LogInv s := logInv_ops ops _ (logInv_init opt0) hok
+  have hpk : Packed s := packed_ops ops _ (logInv_init opt0) (packed_init opt0) hok
+  have hlog : (allRecs s.files).map (·.1) = logOf ops := by
+    have h0 : (allRecs (openDB opt0 []).1.files).map (·.1) = [] := by simp [openDB, fileEnsure, allRecs]
+    have := log_of_ops ops _ (logInv_init opt0) hok
+    rw [h0, List.nil_append] at this
+    exact this
+  have hL : ∀ x ∈ allRecs s.files, RecOk x.1 := by
+    intro x hx
+    apply logOf_recOk ops hrec
+    rw [← hlog]; exact List.mem_map.mpr ⟨x, hx, rfl⟩
+  have hmk : MarkedLog (allRecs s.files) := markedLog_ops ops _ (logInv_init opt0) (packed_init opt0) (markedLog_init opt0) hok
+  have hminv := minv_of_logInv s now hinv hpk hL hsz hmk
+  have hasc : ((s.files.map (·.fid)).take k).Pairwise (· < ·) := List.Pairwise.sublist (List.take_sublist _ _) hpk.fids
+  have hcov : ∀ g ∈ s.files, g.fid ∈ (s.files.map (·.fid)).take k ∨ ∀ x ∈ (s.files.map (·.fid)).take k, x < g.fid := by
+    intro g hg
+    have hgm : g.fid ∈ s.files.map (·.fid) := List.mem_map.mpr ⟨g, hg, rfl⟩
+    rw [← List.take_append_drop k (s.files.map (·.fid))] at hgm
+    rcases List.mem_append.mp hgm with h1 | h1
+    · exact Or.inl h1
+    · right
+      intro x hx
+      have hsplit := hpk.fids
+      rw [← List.take_append_drop k (s.files.map (·.fid)), List.pairwise_append] at hsplit
+      exact hsplit.2.2 x hx g.fid h1
+  have hle' : ∀ x ∈ (s.files.map (·.fid)).take k, x ≤ s.activeFid := by
+    intro x hx
+    obtain ⟨g, hg, rfl⟩ := List.mem_map.mp (List.mem_of_mem_take hx)
+    obtain ⟨pre0, a0, hf0, ha0, hpre0⟩ := hinv.shape.split
+    rw [hf0] at hg
+    rcases List.mem_append.mp hg with hg | hg
+    · have := hpre0 g hg; omega
+    · simp at hg; subst hg; omega
+  obtain ⟨_, hminvk, hvis, _, hopt⟩ := go_spec now _ s txids hminv hasc hcov hle' hl
+  have hmk1 : sk.opt.mode = 0 := by show (merge.go now s _ txids).1.opt.mode = 0; rw [hopt]; exact hm
+  obtain ⟨a1, a2, a3, a4⟩ := reads_of_vis_minv s sk now hminv hminvk hm hmk1 hvis t ht b
+  have hkvrecs : ∀ r ∈ recs, r.ds = dsKV := by
+    intro r hr
+    obtain ⟨p, hp, rfl⟩ := List.mem_map.mp hr
+    exact (hminvk.recs _ (mem_allRecs_of sk.files f hf p (List.mem_filter.mp hp).1)).1
+  refine ⟨?_, ?_⟩
+  · intro j hfresh
+    obtain ⟨c0, c1, c2, c3, c4⟩ := crash_in_rewrite sk now hminvk hmk1 recs hkvrecs tid hfresh j opt hmo t hle ht b
+    exact ⟨c0, fun key => by rw [c1 key, a1 key], by rw [c2, a2], fun st en => by rw [c3 st en, a3 st en],
+      fun pre mt => by rw [c4 pre mt, a4 pre mt]⟩
+  · intro hne
+    obtain ⟨c0, c1, c2, c3, c4⟩ := crash_after_rewrite sk now hminvk hmk1 f hf tid hne opt hmo t hle ht b
+    exact ⟨c0, fun key => by rw [c1 key, a1 key], by rw [c2, a2], fun st en => by rw [c3 st en, a3 st en],
+      fun pre mt => by rw [c4 pre mt, a4 pre mt]⟩
 
 end NutsProofs.C16
